@@ -22,6 +22,12 @@ CHECKS = {
  'C17': dict(level='proof', ref='§6 C17', technique='Lean 4 theorems on addressing functions + exhaustive query correspondence per generated antenna',
    text='Lean theorems: absolute number k resolves to pulse k; (k,t) resolves to row k of the block of the object tagged t; rejections; all-of-antenna attaches 0..N-1 exactly once (from the numbering theorem), all-of-object attaches its block without duplicates; junction pulse is owned by the later object; explicit tags kept, automatic tags after the maximum, processing order is a sorted rearrangement. Tied by comparing tags, order, every valid and several invalid queries through register_source and register_load, geometry table blocks and listings.',
    note=TB + 'generated structures are wires (arcs/helices share the Geobj pulse lists); main() option parsing of --excitation-pulse / --attach-load is tied under C15/C20.'),
+ 'C07': dict(level='proof', ref='§6 C07', technique='Lean 4 / Mathlib linear algebra over C + rhs / residual / source-data correspondence',
+   text='Lean theorems over C for any matrix size: the right-hand side (assignment semantics, duplicates allowed) is homogeneous and additive in the voltage vector and decomposes into single-source right-hand sides; the solution of an invertible system is unique, scales and superposes; V/I is invariant and Re(V conj I)/2 scales with |c|^2. Tied by comparing compute_rhs, the residual of the direct solve, Excitation.impedance/.power and total power with the executed model.',
+   note=TB + 'np.linalg.solve is specified by Z*I = rhs (residual checked per case); floating-point rounding is outside the theorems.'),
+ 'C08': dict(level='proof', ref='§6 C08', technique='Lean 4 / Mathlib (matrix rank-one update, field identities) + load-class and diagonal-increment correspondence',
+   text='Lean theorems: a load on the feed pulse shifts V/I by exactly Z_L for any invertible system, grounded pulses included (weights of load and excitation have ratio Z_L/V); several loads on a pulse act as their sum; series RLC / RL / trap circuit identities at every frequency; zero load, eps_r = 1 insulation (inductance 0, radius unchanged), sigma vs 1/rho; squared modulus of the asymptotic skin-effect impedance is w*mu0/(sigma*(2 pi r)^2), hence -> 0. Tied by comparing every load class, cached zint/zins, equivalent radius and the diagonal increments of the matrix with the executed model; the Bessel ratio of the model is compared with scipy.',
+   note=TB + 'Bessel-branch skin effect: no theorem about J0/J1 (abstract parameter), tied numerically at 1e-9; the distribution of per-length impedance over half segments is checked on the implementation against an independent closed form.'),
 }
 NOT_YET = {}
 
